@@ -136,6 +136,28 @@ theorem generated_counts_coordinate_free (fuel : Nat) (ids pids types : List Int
       lm_n_stems ids pids types, lm_branch_order fuel ids pids k, lm_terminal_degree fuel ids pids k, lm_fragmentation b)) axyz' := rfl
 end generic
 
+/-! ## renumbering -/
+
+/-- **renumbering the nodes changes neither the generated `n_tips` nor the generated `n_bifs`**: `σ` injective and permuting the ids `0 .. n-1`,
+the new parent column the `σ`-image of the old one as a multiset of rows (`Invar.Renumbered`: rows `(σ i, σ pids[i])` in any order — what
+`pids'[σ i] = σ (pids[i])` gives); both tables tree objects (`C06.IsTree`, needed by the refinement theorem of `n_bifs` only), every fuel
+`≥ 2n + 1` -/
+theorem generated_counts_renumbered (σ : Int → Int) (pids pids' types types' : List Int) (h : Renumbered σ pids pids') :
+    lm_n_tips (Sub.rangeI pids'.length) pids' types' = lm_n_tips (Sub.rangeI pids.length) pids types ∧
+    ∀ (r r' : Rose), C06.IsTree r pids → C06.IsTree r' pids' → ∀ F : Nat,
+      lm_n_bifs (2 * pids'.length + F + 1) (Sub.rangeI pids'.length) pids' types' =
+        lm_n_bifs (2 * pids.length + F + 1) (Sub.rangeI pids.length) pids types := by
+  constructor
+  · rw [C10.generated_n_tips, C10.generated_n_tips]
+    have e : ∀ p : List Int, (fun i => decide (tableKids (Sub.rangeI p.length) p i = [])) =
+        fun i => (fun n : Nat => decide (n = 0)) (tableKids (Sub.rangeI p.length) p i).length := by
+      intro p; funext i; simp [List.length_eq_zero_iff]
+    rw [e pids, e pids']
+    exact congrArg (fun n : Nat => some (n : Int)) (h.count_kids (fun n : Nat => decide (n = 0)))
+  · intro r r' ht ht' F
+    rw [C10.generated_n_bifs pids types r ht F, C10.generated_n_bifs pids' types' r' ht' F]
+    exact congrArg (fun n : Nat => some (n : Int)) (h.count_kids (fun n : Nat => decide (2 ≤ n)))
+
 section field
 variable {K : Type} [Field K] [LinearOrder K] [IsStrictOrderedRing K] [Inhabited K]
 
@@ -236,6 +258,12 @@ example : C10.GeoTree [-1, 0, 1] ivA 3 := by
   intro k hk
   have : k = 0 ∨ k = 1 := by simp at hk; omega
   rcases this with rfl | rfl <;> decide
+/-- a non-trivial renumbering (swap ids 1 and 2 of the chain `0 → 1 → 2`: the new table `[-1, 2, 0]` is the chain `0 → 2 → 1`) -/
+def ivSwap (i : Int) : Int := if i = 1 then 2 else if i = 2 then 1 else i
+example : Renumbered ivSwap [-1, 0, 1] [-1, 2, 0] :=
+  ⟨by intro a b; simp only [ivSwap]; split_ifs <;> omega, by decide, by decide⟩
+example : lm_n_tips (Sub.rangeI 3) [-1, 2, 0] [1, 3, 3] = some 1 ∧ lm_n_tips (Sub.rangeI 3) [-1, 0, 1] [1, 3, 3] = some 1 ∧
+    lm_n_tips (Sub.rangeI 3) [-1, 0, 0] [1, 3, 3] = some 2 := by decide +kernel
 end examples
 
 end C11
